@@ -50,38 +50,38 @@ theorem enc_noOff_dec2 (hk : o.kind = .indexed) (hc : r.ind = some c) (hlk : loo
 
 /-- `[,R]` -/
 theorem enc_ind_zero (hk : o.kind = .extIndirect) (hc : r.ind = some c) (hlk : lookup c = some (opOf r.mnemonic, .idx))
-    (hs : r.indSz = opcodeLen c + 1) (hna : o.value.isAddress = false) (hnn : o.value.isNumeric = false)
+    (hs : r.indSz = opcodeLen c + 1) (hna : o.value.isAddress = false) (hne : o.value.isAddrExpr = false) (hnn : o.value.isNumeric = false)
     (hle : o.left = .text []) (hk4 : k < 4) (hr : o.right = some (regName k)) :
     Encodes o r (.idx (.off k 0 true 0)) := by
   rcases k_cases hk4 with rfl | rfl | rfl | rfl <;>
-    exact enc_extInd_noOff hk hc hlk hs hna hnn hle hr (by decide) (by decide) (by decide) (by decide) (by decide)
+    exact enc_extInd_noOff hk hc hlk hs hna hne hnn hle hr (by decide) (by decide) (by decide) (by decide) (by decide)
 
 /-- `[,R++]` -/
 theorem enc_ind_inc2 (hk : o.kind = .extIndirect) (hc : r.ind = some c) (hlk : lookup c = some (opOf r.mnemonic, .idx))
-    (hs : r.indSz = opcodeLen c + 1) (hna : o.value.isAddress = false) (hnn : o.value.isNumeric = false)
+    (hs : r.indSz = opcodeLen c + 1) (hna : o.value.isAddress = false) (hne : o.value.isAddrExpr = false) (hnn : o.value.isNumeric = false)
     (hle : o.left = .text []) (hk4 : k < 4) (hr : o.right = some (regName k ++ ['+', '+'])) :
     Encodes o r (.idx (.inc2 k true)) := by
   rcases k_cases hk4 with rfl | rfl | rfl | rfl <;>
-    exact enc_extInd_noOff hk hc hlk hs hna hnn hle hr (by decide) (by decide) (by decide) (by decide) (by decide)
+    exact enc_extInd_noOff hk hc hlk hs hna hne hnn hle hr (by decide) (by decide) (by decide) (by decide) (by decide)
 
 /-- `[,--R]` -/
 theorem enc_ind_dec2 (hk : o.kind = .extIndirect) (hc : r.ind = some c) (hlk : lookup c = some (opOf r.mnemonic, .idx))
-    (hs : r.indSz = opcodeLen c + 1) (hna : o.value.isAddress = false) (hnn : o.value.isNumeric = false)
+    (hs : r.indSz = opcodeLen c + 1) (hna : o.value.isAddress = false) (hne : o.value.isAddrExpr = false) (hnn : o.value.isNumeric = false)
     (hle : o.left = .text []) (hk4 : k < 4) (hr : o.right = some ('-' :: '-' :: regName k)) :
     Encodes o r (.idx (.dec2 k true)) := by
   rcases k_cases hk4 with rfl | rfl | rfl | rfl <;>
-    exact enc_extInd_noOff hk hc hlk hs hna hnn hle hr (by decide) (by decide) (by decide) (by decide) (by decide)
+    exact enc_extInd_noOff hk hc hlk hs hna hne hnn hle hr (by decide) (by decide) (by decide) (by decide) (by decide)
 
 /-- `[,R+]` and `[,-R]` are rejected (the datasheet has no such mode) -/
 theorem rej_ind_inc1 (hk : o.kind = .extIndirect) (hc : r.ind = some c) (hlk : lookup c = some (opOf r.mnemonic, .idx))
-    (hna : o.value.isAddress = false) (hnn : o.value.isNumeric = false)
+    (hna : o.value.isAddress = false) (hne : o.value.isAddrExpr = false) (hnn : o.value.isNumeric = false)
     (hle : o.left = .text []) (hk4 : k < 4) (hr : o.right = some (regName k ++ ['+']) ∨ o.right = some ('-' :: regName k)) :
     translateOperand o r = .error .operandType := by
   have h0 := cell_ne_zero hlk (by decide)
   have ht : translateOperand o r = translateExtIndirect o r := by simp [translateOperand, hk]
   rw [ht]
   rcases hr with hr | hr <;> rcases k_cases hk4 with rfl | rfl | rfl | rfl <;>
-    exact translateExtInd_bad hc h0 (cell_lt hlk) hna hnn hle hr (by decide) (by decide) (by decide) (by decide)
+    exact translateExtInd_bad hc h0 (cell_lt hlk) hna hne hnn hle hr (by decide) (by decide) (by decide) (by decide)
 
 /-- `A,R` `B,R` `D,R`: the datasheet's accumulator codes are 6, 5, 11 -/
 theorem enc_acc (hk : o.kind = .indexed) (hc : r.ind = some c) (hlk : lookup c = some (opOf r.mnemonic, .idx))
@@ -90,17 +90,17 @@ theorem enc_acc (hk : o.kind = .indexed) (hc : r.ind = some c) (hlk : lookup c =
     (o.left = .text ['B'] → Encodes o r (.idx (.acc 5 k false))) ∧
     (o.left = .text ['D'] → Encodes o r (.idx (.acc 11 k false))) := by
   refine ⟨fun hl => ?_, fun hl => ?_, fun hl => ?_⟩ <;> rcases k_cases hk4 with rfl | rfl | rfl | rfl <;>
-    exact enc_indexed_acc hk hc hlk hs hl (by decide) hr (by decide) (by decide) (by decide) (by decide)
+    exact enc_indexed_acc hk hc hlk hs hl (by decide) hr (by decide) (by decide) (by decide) (by decide) (by decide)
 
 /-- `[A,R]` `[B,R]` `[D,R]` -/
 theorem enc_ind_acc (hk : o.kind = .extIndirect) (hc : r.ind = some c) (hlk : lookup c = some (opOf r.mnemonic, .idx))
-    (hs : r.indSz = opcodeLen c + 1) (hna : o.value.isAddress = false) (hnn : o.value.isNumeric = false)
+    (hs : r.indSz = opcodeLen c + 1) (hna : o.value.isAddress = false) (hne : o.value.isAddrExpr = false) (hnn : o.value.isNumeric = false)
     (hk4 : k < 4) (hr : o.right = some (regName k)) :
     (o.left = .text ['A'] → Encodes o r (.idx (.acc 6 k true))) ∧
     (o.left = .text ['B'] → Encodes o r (.idx (.acc 5 k true))) ∧
     (o.left = .text ['D'] → Encodes o r (.idx (.acc 11 k true))) := by
   refine ⟨fun hl => ?_, fun hl => ?_, fun hl => ?_⟩ <;> rcases k_cases hk4 with rfl | rfl | rfl | rfl <;>
-    exact enc_extInd_acc hk hc hlk hs hna hnn hl (by decide) hr (by decide) (by decide) (by decide) (by decide)
+    exact enc_extInd_acc hk hc hlk hs hna hne hnn hl (by decide) hr (by decide) (by decide) (by decide) (by decide) (by decide)
 
 end
 end CoCo.Asm
